@@ -151,7 +151,7 @@ CLAIMS = {
            'the sampler body generated from BatchSplittingSampler.__iter__ emits skip=True before all but the last physical batch (and one empty batch with skip=False for '
            'an empty logical batch); bmm_refines_unsplit: for every split, every hyper-parameter value, every accountant and every optimizer variant (flat, per-layer, adaptive loop and ghost clipping, the latter with the two-pass backward), '
            'the split run and the unsplit run have the same noise draws, accountant records, released (sample, clipping norm) lists, history and noise-stream position. '
-           'PARTIAL: prefetch interleavings (signals queued ahead by DataLoader workers) and the tie of the ghost backward model to the code are covered by the differential runs (real engine with vs without the manager: '
+           'The ghost backward model is the interpretation of the statement list generated from DPTensorFastGradientClipping.backward (C10_ghost_backward_is_generated). PARTIAL: prefetch interleavings (signals queued ahead by DataLoader workers) are covered by the differential runs (real engine with vs without the manager: '
            'parameter trajectories, torch.normal log, history).'),
  },
  'C11': {
